@@ -160,10 +160,10 @@ def PendFor (s : Sys) (x : Bool) (tid la ra : Nat) (uc : Bool) (ts : Nat) : Prop
     pd.useCand = uc ∧ pd.nom = none ∧ pd.ts = ts
 
 /-- the pair a response on the route `la → ra` will be looked up to (`nomOn`: it carries the deferred-nomination
-mark) -/
+mark — or the mark has been acted upon by another response on this pair and the agent has a selected pair) -/
 def Slot (s : Sys) (x : Bool) (la ra : Nat) (nomOn : Bool) : Prop :=
   ∃ l r p, (s.agent x).localByAddr la = some l ∧ (s.agent x).findRemote 0 ra = some r ∧
-    (s.agent x).findPair l r = some p ∧ (nomOn = true → p.nomOnSuccess = true)
+    (s.agent x).findPair l r = some p ∧ (nomOn = true → p.nomOnSuccess = true ∨ (s.agent x).selected.isSome = true)
 
 structure Ob (s : Sys) (x : Bool) (tid la ra : Nat) (uc nomOn : Bool) (ts : Nat) : Prop where
   link : Link s x la ra
@@ -240,15 +240,16 @@ theorem Ob.keep {s s' : Sys} (h : SysOK nat blocked SLA SLB SR liteA liteB T0 H 
         exact ⟨pd, by rw [e]; exact h1, h2⟩
   · obtain ⟨l, r, p, h1, h2, h3, h4⟩ := hob.slot
     rcases he.cases with ⟨_, e, _⟩ | ⟨y, m, hm, hown, _, _, ho, k, _⟩
-    · exact ⟨l, r, p, by rw [e]; exact h1, by rw [e]; exact h2, by rw [e]; exact h3, h4⟩
+    · exact ⟨l, r, p, by rw [e]; exact h1, by rw [e]; exact h2, by rw [e]; exact h3, by rw [e]; exact h4⟩
     · by_cases hxy : x = y
       · subst hxy
         obtain ⟨l', hl', el⟩ := k.localByAddr h1
         obtain ⟨r', hr', er⟩ := k.findRemote h2
         obtain ⟨p', hp', kp⟩ := k.findPair (endsOK_of_c06 (h.c06 x) (h.good x).open_) el er.key h3
-        exact ⟨l', r', p', hl', hr', hp', fun hn => kp.nomOn (h4 hn)⟩
+        exact ⟨l', r', p', hl', hr', hp', fun hn => (h4 hn).elim
+          (fun hm => (kp.nomOn hm).imp (fun y => y) (fun f => f (h.good x).linv)) (fun hs => Or.inr (k.sel hs))⟩
       · have e : s'.agent x = s.agent x := by rw [bool_ne_eq_not hxy]; exact ho
-        exact ⟨l, r, p, by rw [e]; exact h1, by rw [e]; exact h2, by rw [e]; exact h3, h4⟩
+        exact ⟨l, r, p, by rw [e]; exact h1, by rw [e]; exact h2, by rw [e]; exact h3, by rw [e]; exact h4⟩
 
 /-- success responses in flight for a pending transaction travel on its route (C01 safety invariant K2/K3). -/
 theorem resp_route {s : Sys} {LA LB : Log} (hsi : SInv nat blocked SLA SLB SR liteA liteB s LA LB) {x : Bool} {pd : Pending}
@@ -294,7 +295,7 @@ theorem Ob.of_agent_eq {s s' : Sys} (hn : SameNet s s') (hnow : s'.now = s.now) 
     {tid la ra : Nat} {uc nomOn : Bool} {ts : Nat} (hob : Ob s x tid la ra uc nomOn ts) : Ob s' x tid la ra uc nomOn ts := by
   obtain ⟨pd, h1, h2⟩ := hob.pend
   obtain ⟨l, r, p, g1, g2, g3, g4⟩ := hob.slot
-  exact ⟨hn.link hob.link, ⟨pd, by rw [e]; exact h1, h2⟩, ⟨l, r, p, by rw [e]; exact g1, by rw [e]; exact g2, by rw [e]; exact g3, g4⟩,
+  exact ⟨hn.link hob.link, ⟨pd, by rw [e]; exact h1, h2⟩, ⟨l, r, p, by rw [e]; exact g1, by rw [e]; exact g2, by rw [e]; exact g3, by rw [e]; exact g4⟩,
     by rw [hnow]; exact hob.young⟩
 
 /-- a success response with the transaction id of an open transaction of `x` arrives at the head of the queue:
@@ -334,7 +335,9 @@ theorem hop_resp {s s' : Sys} (h : SysOK nat blocked SLA SLB SR liteA liteB T0 H
       simp only [Bool.or_eq_true, Bool.and_eq_true, beq_iff_eq, bne_iff_ne, ne_eq] at hcond
       rcases hcond with ⟨hxc, hu⟩ | ⟨hxc, hn⟩
       · exact v2 (by rw [hrole]; simp [hxc]) (by rw [p4]; exact hu) p5
-      · exact v3 (by rw [hrole]; simp [hxc]) (g4 hn)
+      · rcases g4 hn with hmark | hsel
+        · exact v3 (by rw [hrole]; simp [hxc]) hmark
+        · exact k.sel hsel
     · refine ⟨Or.inr ?_, fun h1 h2 => absurd ⟨h1, h2⟩ hv⟩
       have hnoop := step_response_noop (now := s.now) (h.good x) (la := la) (src := ra) hc (by
         by_cases h1 : m.method = 1
@@ -406,7 +409,7 @@ theorem hop_req {s s' : Sys} (h : SysOK nat blocked SLA SLB SR liteA liteB T0 H 
         rw [hst]; exact hsel
       · right
         rw [← hst] at f1 f2 f3 f7
-        refine ⟨mt.tid, ⟨he.net.link hob.link.mirror, ⟨_, f7, rfl, rfl, rfl, rfl, rfl, ?_⟩, ⟨l', rc, q, f1, f2, f3, fun _ => f4⟩, ?_⟩,
+        refine ⟨mt.tid, ⟨he.net.link hob.link.mirror, ⟨_, f7, rfl, rfl, rfl, rfl, rfl, ?_⟩, ⟨l', rc, q, f1, f2, f3, fun _ => Or.inl f4⟩, ?_⟩,
           _, by rw [hfl]; exact List.mem_append_right _ (mem_dgramsOf_of_dgram f5), rfl, rfl, mt, rfl, f6.congr (he.ids (!x)), rfl⟩
         · simp [pendOf, he.now]
         · simp
